@@ -11,6 +11,19 @@ operations / eq / cmp), the functions of checked.rs / overflowing.rs with nested
 checked_next_multiple_of, checked_next_power_of_two, checked_ilog2), int/unchecked.rs, the operator trait impls of
 int/ops.rs / buint/ops.rs / bint/ops.rs (including Shl / Shr for the twelve primitive amount types) and the num_traits
 forwarders of int/numtraits.rs.
+Round 3 (C17, tie Proofs/GlueTieC17.v, details and mutation table in tools/OPREF_TRANSLATOR.md): the OTHER FORMS of every
+operator, which src/int/ops.rs generates from the by-value impl through nested macros - op_ref_impl! (T op &R, &T op &R, &T op R),
+assign_op_impl! / shift_assign_ops! (op= R, op= &R), shift_self_impl! (Shl / Shr / ShlAssign / ShrAssign with a BUint<M> / BInt<M>
+amount: u32::try_from + expect, then the five other forms), all_shift_impls! - and Default / Sum / Product of buint/mod.rs, bint/mod.rs.
+The macros are EXPANDED BY PATTERN MATCHING from the invocations found in the body of impls! (and recursively in their own bodies),
+with the arguments found there, so a wrong pairing in an invocation list (an assign trait built on the wrong operator, a missing or
+extra amount type) changes what is generated; each impl is named from its header (auto_name) and must be one of EXPECT17.  A call
+`Tr::<R>::m(a, b)` / `Tr::m(a, b)` / `self.m_assign(x)` / `a + &b` is resolved the way rustc resolves it - Self = the type of the first
+argument INCLUDING whether it is a reference, R = the type argument or the type of the second argument - to the impl GENERATED from
+the source for exactly that (trait, Self, R) (registry IMPLS; calls go to the generated definition, e.g. Glue.U_Add_add, whose own
+tie is in GlueTieC04.v); no such impl yet (a form calling itself: infinite recursion in Rust) or a stub: the caller is a stub too.
+`&mut self` methods return the final value of *self; `iter.fold(init, |a, b| e)` is the hand model's Ops.fold_out; `u32::try_from`
+of a bnum is the hand model of that impl (Convert.U_try_to_prim / I_try_to_uprim at pb = 32: tied to the source in ConvGenTieC13.v).
 Each function of the files in FILES / INSTANCES below is re-translated FROM /repo's CURRENT SOURCE ON EVERY RUN into a
 Gallina definition over the hand-written model functions (coq/Model/*.v): a call `x.f(args)` becomes the model function
 `U_f` / `I_f` (by the static type of the receiver) applied to the translated arguments.  coq/Proofs/GlueTieC*.v prove
@@ -39,6 +52,10 @@ property; never a silent skip, never a guess):
                e as ExpType (identity on ExpType, u8, u16; `mod 2^32` on the other primitive integers)
                ExpType::try_from(prim) (Some exactly when 0 <= x <= u32::MAX)   u32::checked_sub
                o.unwrap_unchecked() as the whole body: the function is generated at type option (None = undefined behaviour)
+               (round 3)  `*self = e;`  self.op_assign(x); / (*self).op_assign(x);  in a `&mut self` method (assignments to self)
+               Tr::<R>::m(a, b)  Tr::m(a, b)  (Tr one of the std::ops operator / assign traits)   a + b, a * b, a - b with reference
+               operands or inside a closure (dispatched to the generated impl)   iter.fold(init, |a, b| e)
+               ExpType::try_from(bnum)   result_expect! on its Result   `Self::Output` (the impl's `type Output = T;`)
   patterns     Some(x)  None  Ordering::Less|Equal|Greater  true false  _  (true, false) ..
   functions    inherent / free `fn`s by name; functions of trait impls by `<Trait> for <Type>::<name>`; functions produced by
                single-arm helper macros (ilog!, checked_ilog!, num_trait_impl!, shift_impl!, try_shift_impl!) by expanding the
@@ -70,9 +87,13 @@ def group_of(gname):
     return None
 
 
+DEFER = [False]      # translating a function that may be retried after the impls it calls (no message for that failure yet)
+
+
 def die(msg):
     LAST_MSG[0] = "%s: %s" % (CUR[0], msg)
-    sys.stderr.write("rs2v_glue: %s: %s\n" % (CUR[0], msg))
+    if not (DEFER[0] and msg.startswith("no generated impl of")):
+        sys.stderr.write("rs2v_glue: %s: %s\n" % (CUR[0], msg))
     sys.exit(1)
 
 
@@ -83,7 +104,7 @@ HAND = "not glue: multi-branch algorithm modelled by hand (branch by branch) wit
 LOOP2 = "contains a loop (`while`): translated by tools/rs2v_loops.py (Generated/Loops.v, Proofs/LoopsTie*.v)"
 FUEL = "calls the recursive iilog, which the model runs on explicit fuel (result type option (outcome _)): outside the glue vocabulary;"
 REPR = "representation accessor (struct field / struct literal): the identity on the model's digit list, nothing to tie"
-ITER = "Default / Sum / Product (closures, iterator fold): modelled by hand in Model/Ops.v (C17)"
+ITER = "Default / Sum / Product: translated in the second pass (FILES2), after the operator forms their closures call"
 FILES = [
     ("src/buint/checked.rs", "checked", "U",
      ["checked_add", "checked_add_signed", "checked_sub", "checked_mul", "div_rem", "checked_div", "checked_div_euclid",
@@ -248,11 +269,71 @@ USES += [("src/int/ops.rs", "crate::int::ops::all_shift_impls!($Struct, $BUint, 
          ("src/bint/numtraits.rs", "crate::int::numtraits::impls!($BInt, $BUint, $BInt, $Digit);"),
          ("src/buint/numtraits.rs", "crate::macro_impl!(numtraits);"), ("src/bint/numtraits.rs", "crate::macro_impl!(numtraits);")]
 
+# ---- C17: the reference / assign / bnum-amount operator forms.  The macros below (all defined in src/int/ops.rs) are expanded,
+# by pattern matching, from the invocations found in the body of impls! (and, recursively, in their own bodies); every impl of an
+# operator trait that the expansion produces beyond the by-value ones of FILES / INSTANCES is translated, named from its header
+#   <Trait>[_<type argument>][_vr|_rr|_rv  |  _ref]_<method>        (vr: T op &R, rr: &T op &R, rv: &T op R; _ref: op= &R)
+# and must be one of EXPECT17 (the impls Proofs/GlueTieC17.v has a lemma for): a missing one is a stub, an extra one a failure of C17.
+MACROS17 = ["all_shift_impls", "assign_op_impl", "shift_assign_ops", "op_ref_impl", "shift_self_impl"]
+PRIMS17 = ["u8", "u16", "u32", "u64", "u128", "usize", "i8", "i16", "i32", "i64", "i128", "isize"]
+
+
+def expect17():
+    res = []
+    for tr, m in BIN_TRAITS.items():
+        for ty in ([""] if tr not in ("Shl", "Shr") else PRIMS17 + ["BUint", "BInt"]):
+            mid = "_" + ty if ty else ""
+            if ty in ("BUint", "BInt"):
+                res.append("%s%s_%s" % (tr, mid, m))                      # the by-value impl of shift_self_impl!
+            res += ["%s%s_%s_%s" % (tr, mid, form, m) for form in ("vr", "rr", "rv")]
+            res += ["%sAssign%s_%s_assign" % (tr, mid, m), "%sAssign%s_ref_%s_assign" % (tr, mid, m)]
+    return res
+
+# second pass over mod_impl (after the operator forms their closures call): Default / Sum / Product
+FILES2 = [
+    (path, "mod_impl", S,
+     [("Default for %s<N>::default" % B, "Default_default"), ("Sum<Self> for %s<N>::sum" % B, "Sum_sum"),
+      ("Sum<&'aSelf> for %s<N>::sum" % B, "Sum_ref_sum"), ("Product<Self> for %s<N>::product" % B, "Product_product"),
+      ("Product<&'aSelf> for %s<N>::product" % B, "Product_ref_product")])
+    for path, S, B in (("src/buint/mod.rs", "U", "$BUint"), ("src/bint/mod.rs", "I", "$BInt"))]
+
+
+def auto_name(key, S):
+    """generated name (without the U_ / I_ prefix) of an operator-trait impl, from its header; None: not such an impl"""
+    ik = impl_key(key, S)
+    if ik is None:
+        return None
+    (trait, _, sref, _, rref), meth = ik
+    raw = re.match(r"^\w+(?:<(.*)>)? for ", key).group(1)
+    raw = (raw or "Self").lstrip("&")
+    if raw in ("Self", "$Struct<N>"):
+        ty = ""
+    elif raw in ("$BUint<M>", "$BInt<M>"):
+        ty = raw[1:-3]
+    elif raw in PRIM_INTS or raw in ("u32", "ExpType"):
+        ty = raw
+    else:
+        return None
+    if trait.endswith("Assign"):
+        form = "ref" if rref else ""
+        if sref:
+            return None
+    else:
+        form = {(False, False): "", (False, True): "vr", (True, True): "rr", (True, False): "rv"}[(sref, rref)]
+    return "_".join(x for x in (trait, ty, form, meth) if x)
+
+
 # ------------------------------------------------------------------------------------------------------------------
 # types:  "U" (BUint digit list)  "I" (BInt digit list)  "bool"  "Z" (ExpType/u32)  "ord"  ("opt", T)  ("tup", [T..])
 # None is the unknown type of `None` / a diverging expression
 
 
+# the std::ops traits whose impls the macros of src/int/ops.rs generate (C17): operator trait -> method, assign trait -> method
+BIN_TRAITS = {"Add": "add", "Sub": "sub", "Mul": "mul", "Div": "div", "Rem": "rem", "BitAnd": "bitand", "BitOr": "bitor",
+              "BitXor": "bitxor", "Shl": "shl", "Shr": "shr"}
+OP_TRAITS = dict(BIN_TRAITS)
+OP_TRAITS.update({t + "Assign": m + "_assign" for t, m in BIN_TRAITS.items()})
+ASSIGN_METHODS = {m + "_assign": t + "Assign" for t, m in BIN_TRAITS.items()}
 PRIM_INTS = ("u8", "u16", "u64", "u128", "usize", "i8", "i16", "i32", "i64", "i128", "isize")
 INTS = ("Z", "SD", "D", "lit")     # ExpType / signed digit / digit / integer literal (all Coq Z)
 
@@ -265,8 +346,10 @@ def teq(a, b):
     if isinstance(a, tuple) and isinstance(b, tuple):
         if a[0] != b[0] or a[0] == "ub":
             return False
-        if a[0] == "opt":
+        if a[0] in ("opt", "res"):
             return teq(a[1], b[1])
+        if a[0] == "iter":
+            return a == b
         return len(a[1]) == len(b[1]) and all(teq(x, y) for x, y in zip(a[1], b[1]))
     return a == b
 
@@ -277,8 +360,10 @@ def tjoin(a, b):
     if b is None or b == "lit":
         return a
     if isinstance(a, tuple) and isinstance(b, tuple) and a[0] == b[0]:
-        if a[0] == "opt":
-            return ("opt", tjoin(a[1], b[1]))
+        if a[0] in ("opt", "res"):
+            return (a[0], tjoin(a[1], b[1]))
+        if a[0] == "iter":
+            return a
         return ("tup", [tjoin(x, y) for x, y in zip(a[1], b[1])])
     return a
 
@@ -288,6 +373,10 @@ def tshow(t):
         return "_"
     if isinstance(t, tuple) and t[0] == "ub":
         return "(unwrap_unchecked of option %s)" % tshow(t[1])
+    if isinstance(t, tuple) and t[0] == "res":
+        return "Convert.result (%s)" % tshow(t[1])
+    if isinstance(t, tuple) and t[0] == "iter":
+        return "list (%s)" % tshow(t[1])
     if isinstance(t, tuple):
         return "option (%s)" % tshow(t[1]) if t[0] == "opt" else "(" + " * ".join(tshow(x) for x in t[1]) + ")"
     if isinstance(t, str) and t.startswith("P:"):
@@ -609,8 +698,251 @@ def find_fns(region, path):
             continue
         k = j + rm.end() - 1
         e = balanced(region, k, "{", "}")
-        res.append((name, region[i + 1:j - 1], (rm.group(1) or "()").strip(), region[k:e]))
+        ret = (rm.group(1) or "()").strip()
+        if re.sub(r"\s+", "", ret) == "Self::Output" and inner is not None:
+            # the associated type of the enclosing impl: `type Output = T;`
+            om = re.findall(r"\btype\s+Output\s*=\s*([^;]+);", region[inner[0]:inner[1]])
+            if len(om) == 1:
+                ret = om[0].strip()
+        res.append((name, region[i + 1:j - 1], ret, region[k:e]))
     return res
+
+
+# ------------------------------------------------------------------------------------------------------------------
+# macro_rules! expansion by pattern matching (C17: the nested helper macros of src/int/ops.rs - assign_op_impl!,
+# shift_assign_ops!, op_ref_impl!, shift_self_impl!, all_shift_impls! - are expanded from the invocations found in the source,
+# with the arguments found there; nothing about which operator is paired with which assign trait is assumed here)
+MTOK = re.compile(r'"(?:[^"\\]|\\.)*"|\$?[A-Za-z_]\w*|\d+|::|=>|->|\S')
+MWS = re.compile(r"\s*")
+
+
+class MacroMismatch(Exception):
+    pass
+
+
+def mtokens(text):
+    """[(token, preceded by white space?)]; `<` `>` are always single tokens, `$(` is `$` `(`"""
+    out, i = [], 0
+    while True:
+        j = MWS.match(text, i).end()
+        if j >= len(text):
+            return out
+        m = MTOK.match(text, j)
+        out.append((m.group(0), j > i))
+        i = m.end()
+
+
+def mtext(toks):
+    return "".join((" " if ws else "") + t for t, ws in toks)
+
+
+MCLOSE = {"(": ")", "[": "]", "{": "}"}
+
+
+def mclose(toks, i):
+    """toks[i] opens a group: index of the matching closing delimiter"""
+    d = 0
+    for j in range(i, len(toks)):
+        if toks[j][0] in MCLOSE:
+            d += 1
+        elif toks[j][0] in MCLOSE.values():
+            d -= 1
+            if d == 0:
+                return j
+    die("macro expansion: unbalanced delimiters")
+
+
+def mparse_pattern(toks):
+    """pattern items: ('lit', tok) | ('var', $name, fragment) | ('rep', items, separator or None, operator)"""
+    items, i = [], 0
+    while i < len(toks):
+        t = toks[i][0]
+        if t == "$" and i + 1 < len(toks) and toks[i + 1][0] == "(":
+            j = mclose(toks, i + 1)
+            k, sep = j + 1, None
+            if toks[k][0] not in "*+?":
+                sep, k = toks[k][0], k + 1
+            if toks[k][0] not in "*+?":
+                die("macro pattern: cannot parse the repetition operator")
+            items.append(("rep", mparse_pattern(toks[i + 2:j]), sep, toks[k][0]))
+            i = k + 1
+        elif t.startswith("$") and len(t) > 1 and i + 2 < len(toks) and toks[i + 1][0] == ":":
+            items.append(("var", t, toks[i + 2][0]))
+            i += 3
+        else:
+            items.append(("lit", t))
+            i += 1
+    return items
+
+
+def pattern_vars(items):
+    vs = []
+    for it in items:
+        if it[0] == "var":
+            vs.append(it[1])
+        elif it[0] == "rep":
+            vs += pattern_vars(it[1])
+    return vs
+
+
+MIDENT = re.compile(r"^\$?[A-Za-z_]\w*$")
+
+
+def mfragment(kind, toks, i):
+    """index after the fragment of the given kind starting at toks[i]"""
+    def tok(k):
+        return toks[k][0] if k < len(toks) else None
+    if kind == "ident":
+        if tok(i) is None or not MIDENT.match(tok(i)):
+            raise MacroMismatch()
+        return i + 1
+    if kind == "tt":
+        if tok(i) is None:
+            raise MacroMismatch()
+        return mclose(toks, i) + 1 if tok(i) in MCLOSE else i + 1
+    if kind == "ty":
+        if tok(i) == "&":
+            i += 1
+            if tok(i) == "'":
+                i += 2
+            if tok(i) == "mut":
+                i += 1
+        if tok(i) in ("(", "["):
+            return mclose(toks, i) + 1
+        if tok(i) is None or not MIDENT.match(tok(i)):
+            raise MacroMismatch()
+        i += 1
+        while True:
+            if tok(i) == "::" and tok(i + 1) is not None and MIDENT.match(tok(i + 1)):
+                i += 2
+            elif tok(i) == "<":
+                d = 0
+                while True:
+                    if tok(i) is None:
+                        raise MacroMismatch()
+                    d += {"<": 1, ">": -1}.get(tok(i), 0)
+                    i = mclose(toks, i) + 1 if tok(i) in MCLOSE else i + 1
+                    if d == 0:
+                        break
+            else:
+                return i
+    if kind == "expr":
+        j = i
+        while tok(j) is not None and tok(j) not in (",", ";"):
+            j = mclose(toks, j) + 1 if tok(j) in MCLOSE else j + 1
+        if j == i:
+            raise MacroMismatch()
+        return j
+    die("macro pattern: fragment specifier `%s` is outside the supported subset" % kind)
+
+
+def mmatch(items, toks, i, binds):
+    for it in items:
+        if it[0] == "lit":
+            if i >= len(toks) or toks[i][0] != it[1]:
+                raise MacroMismatch()
+            i += 1
+        elif it[0] == "var":
+            j = mfragment(it[2], toks, i)
+            binds[it[1]] = toks[i:j]
+            i = j
+        else:
+            reps = []
+            while True:
+                b = {}
+                try:
+                    j = mmatch(it[1], toks, i, b)
+                except MacroMismatch:
+                    break
+                reps.append(b)
+                i = j
+                if it[2] is None:
+                    continue
+                if i < len(toks) and toks[i][0] == it[2]:
+                    i += 1
+                else:
+                    break
+            if it[3] == "+" and not reps:
+                raise MacroMismatch()
+            for v in pattern_vars(it[1]):
+                binds[v] = ("rep", [b[v] for b in reps])
+    return i
+
+
+def mtranscribe(body, binds, name):
+    out, i = [], 0
+    while i < len(body):
+        t, ws = body[i]
+        if t == "$" and i + 1 < len(body) and body[i + 1][0] == "(":
+            j = mclose(body, i + 1)
+            k, sep = j + 1, None
+            if body[k][0] not in "*+?":
+                sep, k = body[k], k + 1
+            inner = body[i + 2:j]
+            vs = sorted(set(x[0] for x in inner if isinstance(binds.get(x[0]), tuple)))
+            if not vs:
+                die("macro %s: a repetition group of the body uses no repetition variable" % name)
+            n = len(binds[vs[0]][1])
+            if any(len(binds[v][1]) != n for v in vs):
+                die("macro %s: repetition variables of different lengths in one group" % name)
+            for r in range(n):
+                b2 = dict(binds)
+                for v in vs:
+                    b2[v] = binds[v][1][r]
+                if r and sep is not None:
+                    out.append(sep)
+                out += mtranscribe(inner, b2, name)
+            i = k + 1
+        elif t in binds:
+            if isinstance(binds[t], tuple):
+                die("macro %s: repetition variable %s used outside a repetition group" % (name, t))
+            for q, (vt, vws) in enumerate(binds[t]):
+                out.append((vt, vws if q else ws))
+            i += 1
+        else:
+            out.append((t, ws))
+            i += 1
+    return out
+
+
+def macro_arm(region, name):
+    """(pattern tokens, body tokens) of a single-arm macro_rules! (region = its `{ (pattern) => { body } }`)"""
+    i = 1
+    while region[i].isspace():
+        i += 1
+    if region[i] not in "([{":
+        die("macro %s: cannot find the pattern of its arm" % name)
+    j = balanced(region, i, region[i], MCLOSE[region[i]])
+    body = macro_arm_body(region, name, "")
+    return mtokens(region[i + 1:j - 1]), mtokens(body)
+
+
+def mexpand(toks, macros, depth=0):
+    """expand, recursively, every invocation `path::name!( .. );` of a macro of `macros` (name -> (pattern items, body tokens))"""
+    if depth > 8:
+        die("macro expansion: nesting deeper than 8")
+    out, i = [], 0
+    while i < len(toks):
+        t = toks[i][0]
+        if t in macros and i + 2 < len(toks) and toks[i + 1][0] == "!" and toks[i + 2][0] in MCLOSE:
+            while len(out) >= 2 and out[-1][0] == "::" and MIDENT.match(out[-2][0]):
+                del out[-2:]                                      # the path prefix `crate::int::ops::`
+            j = mclose(toks, i + 2)
+            binds = {}
+            pat, body = macros[t]
+            try:
+                if mmatch(pat, toks[i + 3:j], 0, binds) != j - i - 3:
+                    raise MacroMismatch()
+            except MacroMismatch:
+                die("the invocation `%s!(%s)` does not match the macro's pattern" % (t, mtext(toks[i + 3:j]).strip()))
+            out += mexpand(mtranscribe(body, binds, t), macros, depth + 1)
+            i = j + 1
+            if i < len(toks) and toks[i][0] == ";":
+                i += 1
+        else:
+            out.append(toks[i])
+            i += 1
+    return out
 
 
 # ------------------------------------------------------------------------------------------------------------------
@@ -648,8 +980,9 @@ KEYWORDS = {"if", "else", "match", "let", "return", "unsafe", "true", "false", "
 
 
 class P:
-    def __init__(self, toks):
+    def __init__(self, toks, tyvars=None):
         self.t, self.i = toks, 0
+        self.tyvars = tyvars or {}         # generic type parameters of the function: name -> type (`I: Iterator<Item = T>`)
 
     def peek(self, k=0):
         return self.t[self.i + k] if self.i + k < len(self.t) else None
@@ -670,6 +1003,21 @@ class P:
         return v
 
     # ---- types
+    def eat_gt(self):
+        """the `>` closing a generic argument list; a `>>` token closes two nested lists"""
+        if self.peek() == ">>":
+            self.t[self.i:self.i + 1] = [">", ">"]
+        self.eat(">")
+
+    def type_ref(self):
+        """-> (is a reference `&T`?, T)"""
+        if self.peek() == "&":
+            self.eat()
+            if self.peek() == "mut":
+                die("`&mut` type is outside the supported subset")
+            return True, self.type_()
+        return False, self.type_()
+
     def type_(self):
         v = self.peek()
         if v == "&":
@@ -691,13 +1039,17 @@ class P:
         if name == "Option":
             self.eat("<")
             t = self.type_()
-            self.eat(">")
+            self.eat_gt()
             return ("opt", t)
+        if name in self.tyvars:
+            return self.tyvars[name]
         if name in ("$BUint", "$BInt", "$Struct", "$Int"):
             if self.peek() == "<":
                 self.eat("<")
-                self.eat("N")
-                self.eat(">")
+                if self.peek() not in ("N", "M"):         # M: the digit count of a bnum-typed shift amount (shift_self_impl!)
+                    die("const generic argument %r of %s (only N / M)" % (self.peek(), name))
+                self.eat()
+                self.eat_gt()
             return {"$BUint": "U", "$BInt": "I"}.get(name, "Self")      # $Struct / $Int: the type the macro is expanded for
         if name == "$Digit":
             return "D"
@@ -794,6 +1146,14 @@ class P:
                 return ("block", stmts, ("return", e))
             elif v in ("while", "loop", "for"):
                 die("loop (`%s`) is outside the supported subset" % v)
+            elif v == "*" and self.peek(1) == "self" and self.peek(2) == "=":
+                # `*self = e;` in a `&mut self` method: the function returns the final value of *self
+                self.eat()
+                self.eat()
+                self.eat("=")
+                e = self.expr()
+                self.eat(";")
+                stmts.append(("assign", "self", e))
             elif v is not None and IDENT.match(v) and v not in KEYWORDS and self.peek(1) == "=":
                 x = self.ident()
                 self.eat("=")
@@ -802,6 +1162,12 @@ class P:
                 stmts.append(("assign", x, e))
             else:
                 e = self.expr()
+                if (e[0] == "mcall" and e[2] in ASSIGN_METHODS and e[1] in (("var", "self"), ("deref", ("var", "self")))
+                        and e[4] is None and self.peek() == ";"):
+                    # `self.add_assign(x);` / `(*self).shl_assign(x);` in a `&mut self` method: *self = <that impl>(*self, x)
+                    self.eat(";")
+                    stmts.append(("assign", "self", ("acall", e[2], e[3])))
+                    continue
                 if e[0] == "panic" and self.peek() == ";":         # `div_zero!();` / `panic!(..);`
                     self.eat(";")
                     self.eat("}")                                    # nothing may follow a panic
@@ -941,10 +1307,10 @@ class P:
             self.eat()
             if self.peek() == "mut":
                 die("`&mut` is outside the supported subset")
-            return self.unary(nostruct)
+            return ("ref", self.unary(nostruct))
         if v == "*":
             self.eat()
-            return self.unary(nostruct)
+            return ("deref", self.unary(nostruct))
         if v == "-":
             die("unary minus is outside the supported subset")
         e = self.postfix()
@@ -1078,6 +1444,20 @@ class P:
             die("loop (`%s`) is outside the supported subset" % v)
         if v.endswith("!") and len(v) > 1:
             return self.macro([self.eat()])
+        if v == "|":
+            # closure `|a, b| e` (only as the second argument of Iterator::fold, see Gen.tr_fold)
+            self.eat("|")
+            ps = []
+            while self.peek() != "|":
+                ps.append(self.ident())
+                if self.peek() == ":":
+                    die("closure parameter with a type annotation is outside the supported subset")
+                if self.peek() == ",":
+                    self.eat(",")
+            self.eat("|")
+            if self.peek() == "{":
+                die("closure with a block body is outside the supported subset")
+            return ("closure", ps, self.expr())
         if IDENT.match(v) and v not in KEYWORDS:
             segs = [self.eat()]
             generic = None
@@ -1085,6 +1465,10 @@ class P:
                 self.eat("::")
                 if self.peek() == "<":
                     self.eat("<")
+                    if segs[0] in OP_TRAITS and len(segs) == 1:
+                        generic = ("ty",) + self.type_ref()         # `Add::<&T>::add`: the trait's type argument
+                        self.eat_gt()
+                        continue
                     generic = self.eat()
                     self.eat(">")
                     continue
@@ -1094,6 +1478,13 @@ class P:
                 if not IDENT.match(nx):
                     die("bad path segment %r" % nx)
                 segs.append(nx)
+            if self.peek() == "(" and segs[0] in OP_TRAITS and len(segs) == 2:
+                # `Tr::<R>::m(a, b)` / `Tr::m(a, b)`: the method of the impl of Tr<R> for the type of the first argument
+                if generic is not None and not isinstance(generic, tuple):
+                    die("unexpected const generic on the trait call %s" % "::".join(segs))
+                return ("tcall", segs[0], generic[1:] if generic else None, segs[1], self.args())
+            if isinstance(generic, tuple):
+                die("type argument on %s, which is not a call of an operator-trait method" % "::".join(segs))
             if self.peek() == "(":
                 return ("scall", segs, generic, self.args())
             if len(segs) == 1:
@@ -1135,6 +1526,7 @@ class Gen:
         self.k = 0
         self.uses_dbg = False
         self.uses_n = False
+        self.in_closure = 0        # > 0 while translating the body of a closure
         self.nontail = 0           # > 0 while translating an operand / condition / let right-hand side (no `return` there)
 
     def fresh(self):
@@ -1152,8 +1544,10 @@ class Gen:
         """resolve Self inside a parsed type"""
         if t == "Self":
             return self.S
+        if isinstance(t, tuple) and t[0] == "iter":
+            return ("iter", self.rty(t[1]), t[2])
         if isinstance(t, tuple):
-            return ("opt", self.rty(t[1])) if t[0] == "opt" else ("tup", [self.rty(x) for x in t[1]])
+            return (t[0], self.rty(t[1])) if t[0] in ("opt", "res") else ("tup", [self.rty(x) for x in t[1]])
         return t
 
     @staticmethod
@@ -1163,9 +1557,12 @@ class Gen:
     @staticmethod
     def wrap(binds, term, ty, eff):
         for x, xt, t in reversed(binds):
+            x0 = x
             if xt is not None and "_" not in tshow(xt):           # annotate the binder (needed for tuple patterns)
                 x = ("'(%s : %s)" % (x[1:], tshow(xt))) if x.startswith("'") else "(%s : %s)" % (x, tshow(xt))
-            if eff:
+            if term == x0 and not x0.startswith("'"):
+                term, eff = t, True                               # `let x = <outcome>; x`: the outcome itself
+            elif eff:
                 term = "(obind %s (fun %s => %s))" % (t, x, term)
             else:
                 term = "(omap (fun %s => %s) %s)" % (x, term, t)
@@ -1247,6 +1644,17 @@ class Gen:
             return [], env[e[1]][0], env[e[1]][1], False
         if k == "lit":
             return [], str(e[1]), "lit", False
+        if k in ("ref", "deref"):
+            return self.tr(e[1], env)                  # values only; reference-ness matters for trait dispatch alone (isref)
+        if k == "tcall":
+            return self.tr_tcall(e, env)
+        if k == "acall":
+            # `self.add_assign(x)` on `&mut self`: the impl of AddAssign<type of x> for Self, applied to the current *self
+            return self.tr_tcall(("tcall", ASSIGN_METHODS[e[1]], None, e[1], [("var", "self")] + e[2]), env, selfref=False)
+        if k == "closure":
+            die("closure anywhere but as the second argument of Iterator::fold is outside the supported subset")
+        if k == "mcall" and e[2] == "fold":
+            return self.tr_fold(e, env)
         if k == "as_exptype":
             def bc(vs):
                 t0 = vs[0][1]
@@ -1301,6 +1709,10 @@ class Gen:
                 _, _, tl, _ = self.tr(e[2], env)
                 self.nontail -= 1
                 self.k = k0
+                if tl in ("U", "I") and (self.in_closure or self.isref(e[2], env) or self.isref(e[3], env)):
+                    # `a + &b` .. (and every operator of a closure body): the impl generated from the source for these operand types
+                    tname = {"*": "Mul", "+": "Add", "-": "Sub"}[op]
+                    return self.tr_tcall(("tcall", tname, None, OP_TRAITS[tname], [e[2], e[3]]), env)
                 if tl in ("U", "I"):
                     return self.seq([e[2], e[3]], env, lambda vs: self.call(vs[0][1], {"*": "mul", "+": "add", "-": "sub"}[op], vs))
 
@@ -1347,6 +1759,8 @@ class Gen:
         if k == "expect":
             def be(vs):
                 t, ty = vs[0]
+                if isinstance(ty, tuple) and ty[0] == "res":
+                    return "(match %s with Convert.Ok x => Ret x | Convert.Err => Panic end)" % t, ty[1], True
                 if not (isinstance(ty, tuple) and ty[0] == "opt"):
                     die("option_expect! on a non-Option (%s)" % tshow(ty))
                 return "(Core.option_expect %s)" % t, ty[1], True
@@ -1366,9 +1780,15 @@ class Gen:
                             die("tuple_to_option on %s" % tshow(ty))
                         return "(Core.tuple_to_option %s)" % t, ("opt", ty[1][0]), False
                     return self.seq(args, env, bt)
-                if segs == ["ExpType", "try_from"] and len(args) == 1:
+                if segs[-2:] == ["ExpType", "try_from"] and segs[:-2] in ([], ["crate"]) and len(args) == 1:
                     # u32::try_from(x) for a primitive integer x: Ok exactly when 0 <= x <= u32::MAX (a Result, translated as an option)
                     def btf(vs):
+                        if vs[0][1] in ("U", "I"):
+                            # TryFrom<BUint<M>> / TryFrom<BInt<M>> for u32 (try_from_buint! / uint_try_from_bint!, tied to the
+                            # source in Proofs/ConvGenTieC13.v): the hand model of those impls, at pb = 32, unsigned
+                            self.uses_dbg = True
+                            f_ = "Convert.U_try_to_prim dbg 32 false w" if vs[0][1] == "U" else "Convert.I_try_to_uprim dbg 32 w"
+                            return "(%s %s)" % (f_, vs[0][0]), ("res", "Z"), True
                         if not (isinstance(vs[0][1], str) and vs[0][1].startswith("P:")):
                             die("ExpType::try_from on %s" % tshow(vs[0][1]))
                         v_ = vs[0][0]
@@ -1400,6 +1820,93 @@ class Gen:
             (ta, tb), ty, eff = self.branches([self.trc(e[1], env), self.trc(e[2], env)])
             return [], "(if dbg then %s else %s)" % (ta, tb), ty, eff
         die("cannot translate %r" % (e,))
+
+    def isref(self, e, env):
+        """is the Rust expression a reference (`&T` / `&mut T`)?  Only variables, `&e` and `*e` are tracked"""
+        if e[0] == "ref":
+            return True
+        if e[0] == "var":
+            v = env.get(e[1])
+            return bool(v is not None and len(v) > 3 and v[3])
+        if e[0] == "deref":
+            if not self.isref(e[1], env):
+                die("`*` applied to something that is not a tracked reference")
+            return False
+        return False
+
+    def gcall(self, gname, vals):
+        """call of a function generated earlier in this file; vals = [(term, type)]"""
+        if gname not in SIGS:
+            die("calls %s, which is not generated (yet): outside the supported subset" % gname)
+        sg = SIGS[gname]
+        if sg is None:
+            die("calls %s, which could not be translated (stub)" % gname)
+        if sg["n"]:
+            die("calls %s, which takes N as a parameter" % gname)
+        if len(vals) != len(sg["params"]):
+            die("%s: expected %d arguments, got %d" % (gname, len(sg["params"]), len(vals)))
+        for i, ((_, ty), wt) in enumerate(zip(vals, sg["params"])):
+            if not teq(ty, wt):
+                die("%s: argument %d has type %s, expected %s" % (gname, i, tshow(ty), tshow(wt)))
+        if sg["dbg"]:
+            self.uses_dbg = True
+        return "(%s%s w %s)" % (gname, " dbg" if sg["dbg"] else "", " ".join(v[0] for v in vals)), sg["ret"], sg["eff"]
+
+    def tr_tcall(self, e, env, selfref=None):
+        """`Tr::<R>::m(a, b)` / `Tr::m(a, b)` / `a + &b`: resolved like rustc does - Self is the type of the first argument
+        (reference or not), the trait's type argument is R when given and the type of the second argument otherwise - to the
+        impl generated from the source for exactly that (trait, Self, R); no impl, or a stub: this function fails"""
+        _, trait, targ, meth, args = e
+        if OP_TRAITS.get(trait) != meth:
+            die("%s::%s is not the method of that trait" % (trait, meth))
+        if len(args) != 2:
+            die("%s::%s with %d arguments" % (trait, meth, len(args)))
+        sref = self.isref(args[0], env) if selfref is None else selfref
+        aref = self.isref(args[1], env)
+
+        def bt(vs):
+            sty = vs[0][1]
+            if sty not in ("U", "I"):
+                die("%s::%s on a first argument of type %s" % (trait, meth, tshow(sty)))
+            aty = "Z" if vs[1][1] == "lit" else vs[1][1]
+            rref, rty = (aref, aty) if targ is None else (targ[0], self.rty(targ[1]))
+            if (rref, rty) != (aref, aty):
+                die("%s::<%s%s>::%s applied to a second argument of type %s%s" % (trait, "&" if rref else "", tshow(rty), meth,
+                                                                               "&" if aref else "", tshow(aty)))
+            key = (trait, sty, sref, rty, rref)
+            if key not in IMPLS:
+                die(NOT_YET + " %s<%s%s> for %s%s" % (trait, "&" if rref else "", rty, "&" if sref else "", sty))
+            return self.gcall(IMPLS[key], vs)
+        return self.seq(args, env, bt)
+
+    def tr_fold(self, e, env):
+        """`iter.fold(init, |a, b| body)` on an `I: Iterator<Item = T>` parameter (a `list T`): the hand model's left fold over
+        outcomes, Ops.fold_out (fun a b => body) iter init (the first panicking step is the result)"""
+        if len(e[3]) != 2 or e[3][1][0] != "closure" or len(e[3][1][1]) != 2 or e[4] is not None:
+            die("Iterator::fold with anything but (init, |a, b| e)")
+        rb, rt, rty, reff = self.tr(e[1], env)
+        if rb or reff or not (isinstance(rty, tuple) and rty[0] == "iter"):
+            die(".fold on something that is not an Iterator parameter")
+        self.nontail += 1
+        ib, it, ity, ieff = self.tr(e[3][0], env)
+        if ib or ieff or ity not in ("U", "I"):
+            die("Iterator::fold: initial value of type %s (or panicking)" % tshow(ity))
+        if rty[1] != ity:
+            die("Iterator::fold: accumulator %s, items %s" % (tshow(ity), tshow(rty[1])))
+        xa, xb = e[3][1][1]
+        ca, cb = cname(xa), cname(xb)
+        if ca == cb or ca in (v[0] for v in env.values()) or cb in (v[0] for v in env.values()):
+            die("closure parameters shadow / repeat a variable")
+        env2 = dict(env)
+        env2[xa] = (ca, ity, False, False)
+        env2[xb] = (cb, rty[1], False, rty[2])
+        self.in_closure += 1
+        bt_, bty, beff = self.trc(e[3][1][2], env2)
+        self.in_closure -= 1
+        self.nontail -= 1
+        if not teq(bty, ity):
+            die("Iterator::fold: the closure returns %s" % tshow(bty))
+        return [], "(Ops.fold_out (fun %s %s => %s) %s %s)" % (ca, cb, self.lift(bt_, beff), rt, it), ity, True
 
     def branches(self, parts):
         """parts = [(term, ty, eff)] (closed) -> lifted terms, joint type, joint eff"""
@@ -1577,10 +2084,14 @@ class Gen:
                 binder = "'(%s)" % ", ".join(names)
             else:
                 x = cname(pat)
+                if pat == "self" and len(st) > 4:
+                    x = "self_new"                     # `*self = e` (a `&mut self` method): N is still read from the parameter
                 self.noshadow(x)
                 if frozen is not None and pat in frozen and len(st) <= 4:
                     die("re-binding %s inside a block whose continuation is shared is outside the supported subset" % pat)
                 env2[pat] = (x, ty, pat in muts)
+                if len(st) > 4 and len(env[pat]) > 3:
+                    env2[pat] = env2[pat] + (env[pat][3],)          # an assignment through a reference keeps it a reference
                 binder = x
             rt, rty, reff = self.close(self.tr_stmts(rest, tail, env2, kont, frozen))
             if eff:
@@ -1631,24 +2142,58 @@ class Gen:
         die("cannot translate statement %r" % (st,))
 
 
-def split_params(toks):
-    """[(pattern, parsed type)] from the tokens of a parameter list; pattern = name | [names] (tuple pattern)"""
-    p = P(toks)
+# ------------------------------------------------------------------------------------------------------------------
+# calls between generated functions (C17): the registry of the operator-trait impls generated so far
+NOT_YET = "no generated impl of"
+SIGS = {}      # generated name -> {"dbg": bool, "n": bool, "params": [type], "ret": type, "eff": bool}   (None: a stub)
+IMPLS = {}     # (trait, Self type "U"/"I", Self is a reference?, type argument, type argument is a reference?) -> generated name
+
+
+def impl_key(key, S):
+    """`Add<&$Struct<N>> for &$Struct<N>::add` -> (("Add", S, True, S, True), "add"); None when the key is not an impl of one
+    of the operator traits for the bnum type itself"""
+    m = re.match(r"^(\w+)(?:<(.*)>)? for (&?)(\$\w+)<N>::(\w+)$", key)
+    if not m or m.group(1) not in OP_TRAITS or m.group(4) not in ("$Struct", "$BUint", "$BInt"):
+        return None
+    if m.group(4) != "$Struct" and {"$BUint": "U", "$BInt": "I"}[m.group(4)] != S:
+        return None
+    rref, rty = False, S
+    if m.group(2) is not None:
+        g = Gen(S, None)
+        pp = P(tokenize(m.group(2)))
+        rref, rty = pp.type_ref()
+        if pp.peek() is not None:
+            return None
+        rty = g.rty(rty)
+    return (m.group(1), S, m.group(3) == "&", rty, rref), m.group(5)
+
+
+def split_params(toks, tyvars=None):
+    """[(pattern, parsed type, is a reference?, `&mut`?)] from the tokens of a parameter list; pattern = name | [names]"""
+    p = P(toks, tyvars)
     res = []
     while p.peek() is not None:
+        ref = mut = False
         if p.peek() == "&":
             p.eat()
+            ref = True
+            if p.peek() == "mut":
+                p.eat()
+                mut = True
+            if p.peek() != "self":
+                die("reference pattern in a parameter list is outside the supported subset")
         if p.peek() == "mut":
             die("`mut` parameter is outside the supported subset")
         if p.peek() == "self":
             p.eat()
-            res.append(("self", "Self"))
+            res.append(("self", "Self", ref, mut))
         else:
             pat, muts = p.let_pattern()
             if muts:
                 die("`mut` parameter is outside the supported subset")
             p.eat(":")
-            res.append((pat, p.type_()))
+            ref, ty = p.type_ref()
+            res.append((pat, ty, ref, False))
         if p.peek() == ",":
             p.eat(",")
         elif p.peek() is not None:
@@ -1656,18 +2201,21 @@ def split_params(toks):
     return res
 
 
-def translate_fn(path, S, name, params_src, ret_src, body_src):
+def translate_fn(path, S, name, params_src, ret_src, body_src, selfref=False, tyvars=None):
+    """selfref: the impl is `for &Type` (so `self` is a reference); tyvars: the function's generic type parameters"""
     gname = "%s_%s" % (S, name)
     CUR[0] = "%s %s (as %s)" % (path, name, gname)
     if ret_src is None:
         die("no return type / body found")
     if re.search(r"\b(while|loop|for)\b", body_src):
         die("contains a loop; loops are outside the supported subset (list the function in SKIP with a reason if it is modelled by hand)")
-    params = split_params(tokenize(params_src))
+    params = split_params(tokenize(params_src), tyvars)
     g0 = Gen(S, None)
-    env, binders, prelude, nvar = {}, [], [], None
-    for idx, (pat, pty) in enumerate(params):
+    env, binders, prelude, nvar, ptys = {}, [], [], None, []
+    mutself = False
+    for idx, (pat, pty, pref, pmut) in enumerate(params):
         ty = g0.rty(pty)
+        ptys.append(ty)
         if isinstance(pat, list):
             if not (isinstance(ty, tuple) and ty[0] == "tup" and len(ty[1]) == len(pat)):
                 die("tuple parameter pattern against %s" % tshow(ty))
@@ -1682,18 +2230,31 @@ def translate_fn(path, S, name, params_src, ret_src, body_src):
         else:
             cx = cname(pat)
             binders.append("(%s : %s)" % (cx, tshow(ty)))
-            env[pat] = (cx, ty)
+            if pat == "self":
+                mutself = pmut
+                env[pat] = (cx, ty, pmut, pref or selfref)
+            else:
+                env[pat] = (cx, ty, False, pref) if pref else (cx, ty)
             if nvar is None and ty in ("U", "I"):
                 nvar = cx
     g = Gen(S, nvar)
-    rp = P(tokenize(ret_src))
-    ret = g.rty(rp.type_())
-    if rp.peek() is not None:
-        die("cannot parse return type %s" % ret_src)
     bp = P(tokenize(body_src))
     body = bp.block()
     if bp.peek() is not None:
         die("trailing tokens after the function body")
+    if mutself:
+        # `fn f(&mut self, ..)` without a result: the generated function returns the value *self has at the end
+        if ret_src != "()":
+            die("`&mut self` method with a result is outside the supported subset")
+        if body[2] is not None:
+            die("`&mut self` method whose body ends in an expression is outside the supported subset")
+        body = ("block", body[1], ("var", "self"))
+        ret = S
+    else:
+        rp = P(tokenize(ret_src))
+        ret = g.rty(rp.type_())
+        if rp.peek() is not None:
+            die("cannot parse return type %s" % ret_src)
     term, ty, eff = g.trc(body, env)
     if isinstance(ty, tuple) and ty[0] == "ub":
         # the whole body is `<option>.unwrap_unchecked()`: the function is generated at type option (None = UB, unmodelled)
@@ -1709,6 +2270,7 @@ def translate_fn(path, S, name, params_src, ret_src, body_src):
     if term.startswith("(") and term.endswith(")") and balanced(term, 0, "(", ")") == len(term):
         term = term[1:-1]
     text = "Definition %s %s : %s :=\n  %s%s.\n" % (gname, sig.rstrip(), coq_ret, "".join(prelude), term)
+    SIGS[gname] = {"dbg": g.uses_dbg, "n": g.uses_n, "params": ptys, "ret": ret, "eff": eff}
     return gname, text
 
 
@@ -1726,28 +2288,61 @@ def main():
            "   checked, wrapping, saturating, strict, overflowing, cmp, ops, bigint_helpers, mod, const_trait_fillers, unchecked,",
            "   numtraits).  Do not edit.  Proofs/GlueTieC*.v prove each definition equal to the hand-written model. *)",
            "From Bnum Require Import Base Prim.",
-           "From Bnum.Model Require Import Digit Core Shift AddSub Mul Div Bits Pow.", "", "Module Glue.", ""]
+           "From Bnum.Model Require Import Digit Core Shift AddSub Mul Div Bits Pow.",
+           "From Bnum.Model Require Ops Convert.", "", "Module Glue.", ""]
     count = {}
     seen = set()
     failed = {}
     group = sys.argv[sys.argv.index("--for") + 1] if "--for" in sys.argv else None
-    def emit(path, selfs, fns, alias):
+    forced = {}          # failure -> property, for failures that are not about a function named in a tie file
+
+    def stub(gname, why):
+        failed[gname] = why
+        SIGS[gname] = None
+        return "(* NOT TRANSLATED: %s *)\nDefinition %s : unit := tt.\n" % (why.replace("*)", "* )").replace("(*", "( *"), gname)
+
+    def emit(path, selfs, fns, alias, any_order=False):
+        """any_order (the C17 phase): a function that calls an impl generated LATER in the source is emitted after it (the order
+        of the impls inside a macro body means nothing in Rust); a function that can never be resolved (it calls itself ..) is a stub"""
         for S in selfs:
-            for f in fns:
-                if f[0] in alias:
+            pending = [f for f in fns if f[0] in alias]
+            while pending:
+                deferred = []
+                for f in pending:
                     gname = "%s_%s" % (S, alias[f[0]])
+                    ik = impl_key(f[0], S)
+                    sm = re.match(r"^(?:Sum|Product)<(&'a)?Self> for ", f[0])
+                    DEFER[0] = any_order
                     try:
-                        gname, text = translate_fn(path, S, alias[f[0]], *f[1:])
+                        gname, text = translate_fn(path, S, alias[f[0]], *f[1:], selfref=bool(ik and ik[0][2]),
+                                                   tyvars={"I": ("iter", "Self", bool(sm.group(1)))} if sm else None)
                     except (SystemExit, Exception) as ex:
+                        DEFER[0] = False
+                        why = LAST_MSG[0] if isinstance(ex, SystemExit) else repr(ex)
+                        if any_order and isinstance(ex, SystemExit) and NOT_YET in why:
+                            deferred.append((f, why))
+                            continue
                         # this function only: a stub, so that only ITS tie lemma (and its property's check) breaks
-                        failed[gname] = LAST_MSG[0] if isinstance(ex, SystemExit) else repr(ex)
-                        text = "(* NOT TRANSLATED: %s *)\nDefinition %s : unit := tt.\n" % (
-                            failed[gname].replace("*)", "* )").replace("(*", "( *"), gname)
+                        text = stub(gname, why)
+                    DEFER[0] = False
                     if gname in seen:
                         die("duplicate generated name " + gname)
                     seen.add(gname)
+                    if ik is not None:
+                        # an impl of an operator trait for the bnum type: later functions may call it (C17)
+                        if ik[0] in IMPLS:
+                            die("two impls of %s" % (ik[0],))
+                        IMPLS[ik[0]] = gname
                     out.append(text)
                     count[path] = count.get(path, 0) + 1
+                if len(deferred) == len(pending):
+                    for f, why in deferred:                      # no progress: these call each other / themselves
+                        gname = "%s_%s" % (S, alias[f[0]])
+                        seen.add(gname)
+                        sys.stderr.write("rs2v_glue: %s\n" % why)
+                        out.append(stub(gname, why))
+                    break
+                pending = [f for f, _ in deferred]
 
     for path, macro, selfs, wanted, skip in FILES:
         CUR[0] = path
@@ -1802,6 +2397,50 @@ def main():
                 if [f[0] for f in fns].count(k_) != 1:
                     die("the expansion does not define %s exactly once" % k_)
             emit("%s %s" % (ipath, inv), selfs, fns, alias)
+    # ---- C17: the reference / assign / bnum-amount operator forms (see MACROS17 above)
+    path = "src/int/ops.rs"
+    CUR[0] = path + " (expansion of impls!)"
+    src = strip_comments(open(os.path.join(REPO, path)).read())
+    macros = {}
+    for mn in MACROS17:
+        pat, body = macro_arm(macro_region(src, mn, path), mn)
+        macros[mn] = (mparse_pattern(pat), body)
+    text = mtext(mexpand(macro_arm(macro_region(src, "impls", path), "impls")[1], macros))
+    fns = find_fns(text, path)
+    byvalue = [x[0] for fl in FILES if fl[0] == path and fl[1] == "impls" for x in fl[3]]
+    out.append("(* ---- %s: the impls produced by %s inside impls! ---- *)" % (path, ", ".join(m_ + "!" for m_ in MACROS17)))
+    expect = expect17()
+    for S in "UI":
+        alias, sel = {}, []
+        for f in fns:
+            if f[0] in byvalue:
+                continue
+            an = auto_name(f[0], S)
+            if an is None or an not in expect or an in alias.values():
+                failed["%s (Self = %s)" % (f[0], S)] = ("an impl in the expansion of impls! that Proofs/GlueTieC17.v has no lemma for"
+                                                        if an is None or an not in expect else "produced twice by the expansion of impls!")
+                forced["%s (Self = %s)" % (f[0], S)] = "C17"
+                continue
+            alias[f[0]] = an
+            sel.append(f)
+        emit("%s impls!" % path, S, sel, alias, any_order=True)
+        for an in expect:
+            if an not in alias.values():
+                CUR[0] = "%s impls! (%s_%s)" % (path, S, an)
+                out.append(stub("%s_%s" % (S, an), "the expansion of impls! no longer produces this impl"))
+                seen.add("%s_%s" % (S, an))
+    # ---- second pass: Default / Sum / Product
+    for path, macro, selfs, wanted in FILES2:
+        CUR[0] = path
+        fns = find_fns(macro_region(strip_comments(open(os.path.join(REPO, path)).read()), macro, path), path)
+        alias = dict(wanted)
+        out.append("(* ---- %s (macro %s), second pass ---- *)" % (path, macro))
+        for wn in alias:
+            if [f[0] for f in fns].count(wn) != 1:
+                CUR[0] = "%s %s" % (path, wn)
+                out.append(stub("%s_%s" % (selfs, alias[wn]), "found %d times in macro %s" % ([f[0] for f in fns].count(wn), macro)))
+                seen.add("%s_%s" % (selfs, alias[wn]))
+        emit(path, selfs, fns, alias)
     out.append("End Glue.")
     txt = "\n".join(out) + "\n"
     p = os.environ.get("RS2V_GLUE_OUT") or os.path.join(ROOT, "coq", "Generated", "Glue.v")
@@ -1809,7 +2448,7 @@ def main():
         open(p, "w").write(txt)
     if failed:
         sys.stderr.write("rs2v_glue: not translated (stub emitted, its tie lemma will not check): %s\n" % ", ".join(sorted(failed)))
-        if group is None or any(group_of(g) in (group, None) for g in failed):
+        if group is None or any((forced.get(g) or group_of(g)) in (group, None) for g in failed):
             return 1
     if os.environ.get("RS2V_VERBOSE"):
         for k in count:
